@@ -2963,7 +2963,7 @@ void SetN2kPGN126993(tN2kMsg &N2kMsg, uint32_t timeInterval_ms, uint8_t sequence
 	if ( timeInterval_ms>MaxHeartbeatInterval ) {
 	  N2kMsg.Add2ByteUInt(0xfffe); // Error
 	} else {
-	  N2kMsg.Add2ByteUInt((uint16_t)(timeInterval_ms));
+	  N2kMsg.Add2ByteUInt((uint16_t)(timeInterval_ms/10)); // field resolution is 10 ms
 	}
 	N2kMsg.AddByte(sequenceCounter);
 	N2kMsg.AddByte(0xff); // Reserved
